@@ -58,7 +58,7 @@ def job_rows(job):
     workers.ensure()
     A, E, g = job["A"], job["E"], job["gamma"]
     R = (-2.0, 0.0, 1.0) if A * E <= 4 else (0.0, 1.0)
-    Wv = W if A * E <= 4 else (-3.0, 0.0, 4.0)
+    Wv = W if A * E <= 4 else (-3.0, 4.0)  # keeps every alphabet <= 3.4e5 rows
     nxt, rew, prob, V = AL.row_alphabet(A, E, R, Wv)
     S = nxt.shape[0]
     enc = T.enc_for(job["enc"], S, A, E)
